@@ -471,8 +471,7 @@ func (fr *Frame) applyContract(fc *FuncContract, callee *ssa.Function, c *ssa.Ca
 		if label == "" {
 			label = fmt.Sprintf("requires%d", i+1)
 		}
-		fr.nOblig["pre:"+fc.Name]++
-		fr.oblig("precondition", "", fmt.Sprintf("call.%s#%d.%s", shortName(fc.Name), fr.nOblig["pre:"+fc.Name], label), f, rq.Src, c.Pos())
+		fr.oblig("precondition", "", fmt.Sprintf("call.%s.%s", shortName(fc.Name), label), f, rq.Src, c.Pos())
 	}
 	// modifies
 	var nh Heap
